@@ -318,6 +318,13 @@ class Check:
                 self.known.append((m, v))
             else:
                 unlisted.append(v)
+        # safety net: a proof obligation / translation / correspondence that no longer checks is a violation even when the only
+        # violations found are listed findings (the per-check code reports it with what it searched; this catches the rest)
+        br = [(n, d) for n, ok, d in self.obligations if not ok]
+        if br and not unlisted:
+            self.violation('obligation_broken', '%s proof/tie no longer checks: ' % self.pid + '; '.join('%s (%s)' % (n, d[:200]) for n, d in br[:3]),
+                           dict(broken=[dict(name=n, detail=d) for n, d in br], searched='the scenarios of this run: no failing input outside the listed findings'), False)
+            unlisted.append(self.violations[-1])
         seen = set()
         for m, v in self.known:
             if m['id'] in seen:
